@@ -2,7 +2,7 @@
 import json
 from vlib import core
 
-NA, NB = 32, 20
+NA, NB = 38, 20      # the last six of A: pairs, maps and tuples of scalars of different widths (members with padding between them)
 
 
 def build(ctx):
